@@ -107,13 +107,15 @@ func (p *H264Payloader) Payload(mtu uint16, payload []byte) [][]byte { //nolint:
 			return
 		case naluType == spsNALUType:
 			if !p.DisableStapA {
-				p.spsNalu = nalu
+				// keep a copy: nalu aliases the caller's buffer
+				p.spsNalu = append([]byte{}, nalu...)
 
 				return
 			}
 		case naluType == ppsNALUType:
 			if !p.DisableStapA {
-				p.ppsNalu = nalu
+				// keep a copy: nalu aliases the caller's buffer
+				p.ppsNalu = append([]byte{}, nalu...)
 
 				return
 			}
